@@ -175,7 +175,7 @@ def value_for(n, star, nested, inner=(2, None, None), extra=0):
         elif i == nested:
             m, s2, _ = inner
             iv = [str(200 + j) for j in range(m + (1 if s2 is not None else 0))]
-            vals.append("[" + ", ".join(iv) + "]")
+            vals.append(("iter([" if (n + m) % 2 else "[") + ", ".join(iv) + ("])" if (n + m) % 2 else "]"))  # nested values: lists and one-shot iterators
         else:
             vals.append(str(k)); k += 1
     return "[" + ", ".join(vals) + "]"
